@@ -3,6 +3,11 @@ import MirVerif.Model.SemTable
 /-!
 # C20 — deviations of the current `mir2c/mir2c.c` from the documented meaning, listed as known findings
 
+STATE: all four deviations were repaired in /repo (fdd8881f, 90e55793, 88b8ee8f, 363a5086); the list is
+empty and Props/C20.lean states the full theorems.  The mechanism stays for future regressions: a new
+deviation must be added here explicitly, which breaks `no_deviation`/`loop_is_fixed`/`expectedMissing_eq`
+in Props/C20.lean and so makes the weakened statement visible.
+
 `knownDeviations` is the ONE definition to edit when a finding gets fixed in /repo: delete the
 constructor from the list.  Everything else follows from it:
 
@@ -38,7 +43,7 @@ inductive Deviation where
 
 /-- THE list.  After a fix in /repo delete the corresponding entry. -/
 def knownDeviations : List Deviation :=
-  [.ugeEmitsGt, .sectionLoopStuck, .missingOpcodes, .uboTestsSignedFlag]
+  []
 
 def Deviation.signature : Deviation → String
   | .ugeEmitsGt => "C20:uge-emits-gt"
